@@ -61,6 +61,11 @@ def run(ctx, rep):
     r16(ctx, rep)
     rep.rule("R1.7", "bounds reach the subproblem solvers through the right parameters (no swapped arguments)")
     common.check_swapped_args(ctx, rep, "R1.7", lambda g: g.module.name.startswith("cobyqa.subsolvers"))
+    rep.rule("R1.8", "bound bookkeeping of the subproblem solvers: lower/upper twin symmetry and sibling agreement (see C15 R15.6, R15.11)")
+    from ..report import Renamed
+    from . import c15
+    c15.r156(ctx, Renamed(rep, to="R1.8"))
+    c15.r1511(ctx, Renamed(rep, to="R1.8"))
 
 
 # ---------------------------------------------------------------------------
